@@ -20,7 +20,15 @@ TEMPLATES = [
     ("import", "k", "import k as j"),
     ("alias", "A1", "pub type A1 = List ( Int )"),
     ("fn", "f5", "@external ( erlang , \"m\" , \"f\" ) fn f5 ( x ) -> Int"),
+    ("fn", "f6", "fn f6 ( a ) { let x = << a , 2 >> case x { << 1 , r >> -> r _ -> a } }"),
+    ("fn", "f7", "fn f7 ( t ) { let # ( a , b ) = t case t { # ( 1 , [ h , .. r ] ) -> h T ( l : v , .. ) as w -> v } }"),
+    ("fn", "f8", "pub fn f8 ( l k : List ( Int ) , _ ) -> fn ( Int ) -> Int { fn ( a , b : Int ) -> Int { a + b . 0 } }"),
+    ("type", "T3", "pub opaque type T3 ( a , b ) { D3 ( f : fn ( a ) -> b , g : # ( a , m . X ( b ) ) ) E3 }"),
+    ("fn", "f9", "fn f9 ( x ) { let assert [ y ] = x todo as \"s\" x . f ( 1 ) |> g ( _ , 2 ) }"),
 ]
+
+
+FOLLOWERS = {"f1", "f2", "T1", "T2", "c1", "c2", "k", "A1", "f5"}   # every way the next definition can start
 
 
 def item(kind, name, text):
@@ -29,7 +37,7 @@ def item(kind, name, text):
     if kind in ("fn", "type") and "{" in lex and lex[-1] == "}":
         lo = lex.index("{") + 1
         hi = len(lex)
-    return {"kind": kind, "name": name, "lex": lex, "lo": lo, "hi": hi}
+    return {"kind": kind, "name": name, "lex": lex, "lo": lo, "hi": hi, "follower": name in FOLLOWERS}
 
 
 def run_cases(out, cases, name):
@@ -60,7 +68,7 @@ def run(out, tier, seed):
     vlib.require_ok(r, "Recovery k=1")
     out.add_tlc(r, "MC Admissible + GEN k=1 exhaustive")
     cases = list(r.cases())
-    if len(cases) < 10000:
+    if len(cases) < 5000:
         raise vlib.ToolError("too few Recovery cases")
     nsim = 300 if tier == "quick" else 20000
     jobs = [dict(module="Recovery", cfg="Recovery_sim.cfg", workers=1, simulate=1, depth=nsim // 4 * 5 + 3, seed=seed * 10 + i, timeout=3000,
@@ -75,7 +83,7 @@ def run(out, tier, seed):
     out.cov["distinct_nontrivial"] += s["with_errors"]
     out.cov["samples"] += s["samples"]
     out.cov["exhaustive"] = True
-    out.cov["rule"] = ("all ordered pairs of 12 definition templates x every victim with a body x every single edit (insert / delete / "
+    out.cov["rule"] = ("every template with a body as victim (11) x every designated follower (9: private/pub fn, attribute, type, pub type, const, pub const, import, alias) x every single edit (insert / delete / "
                        "replace at every position strictly inside the outermost braces with every non-opening lexeme: keywords incl. "
                        "fn/pub/type/const/import, identifiers, literals, operators, closers, separators, lexer-error characters), plus seeded "
                        "two-edit damages in files of three definitions; distinct_nontrivial = damaged files that produce at least one syntax error")
